@@ -441,6 +441,11 @@ def main(argv):
     if isinstance(require, dict) and tier in require and isinstance(require[tier], dict):
         require = require[tier]
     missing = {k: (counters.get(k, 0), m) for k, m in require.items() if counters.get(k, 0) < m}
+    # cases without a verdict (problems under the default resolution of float-boundary decisions and too many
+    # alternatives to enumerate) must stay a small share, otherwise the run as a whole is inconclusive
+    skipped = counters.get("skipped_too_ambiguous", 0)
+    if skipped > max(5, 0.02 * max(1, evaluations)):
+        missing["cases_with_verdict"] = (evaluations - skipped, evaluations - int(0.02 * evaluations))
 
     anchors = {}
     for f in getattr(mod, "ANCHORS", []):
